@@ -300,13 +300,29 @@ def check(run):
     stx = json.loads(p.stdout.strip().splitlines()[-1])
     if stx["incomplete"]:
         raise vlib.ToolError("%d random scenarios did not complete" % stx["incomplete"])
+    # (g) free-running readers against a writer storing a large incompressible object (no hook involved), both keys
+    nrace = 8 if thorough else 3
+    t_g = os.path.join(wd, "race_trace.ndjson")
+    vlib.run_bin("h_store", ["race", t_g, sb, nrace], env=env, timeout=900)
+    t_g2 = os.path.join(wd, "race_root_trace.ndjson")
+    vlib.run_bin("h_store", ["race", t_g2, sb, nrace], env=dict(env, H_STORE_KEY="root"), timeout=900)
+    # (h) crash matrix and round trips again for a key directly under the store root (temporary files live in the root)
+    t_c2 = os.path.join(wd, "crash_root_trace.ndjson")
+    p = vlib.run_bin("h_store", ["crash", f_c, t_c2, sb], env=dict(env, H_STORE_KEY="root"), timeout=900)
+    run.cov["crash_points_not_reached"] += json.loads(p.stdout.strip().splitlines()[-1])["not_crashed"]
+    t_r2 = os.path.join(wd, "rt_root_trace.ndjson")
+    vlib.run_bin("h_store", ["rt", t_r2, sb], env=dict(env, H_STORE_KEY="root"), timeout=900)
     shutil.rmtree(sb, ignore_errors=True)
 
     # ---------------------------------------------------------------- judge
     # sequential parts in one file (strict = relaxed without overlap: both must accept)
     t_all = os.path.join(wd, "seq_trace.ndjson")
     with open(t_all, "w") as out:
-        for t in (t_c, t_r):
+        for t in (t_c, t_r, t_c2, t_r2):
+            out.write(open(t).read())
+    t_race = os.path.join(wd, "race_all_trace.ndjson")
+    with open(t_race, "w") as out:
+        for t in (t_g, t_g2):
             out.write(open(t).read())
     outp = {}
     jp = Par()
@@ -314,6 +330,7 @@ def check(run):
     jp.go("seq", lambda: judge(run, t_all, "crash matrix + round trips", what="crash"))
     jp.go("keys", lambda: judge(run, t_k, "keys", strict_too=False, what="keys"))
     jp.go("rand", lambda: judge(run, t_x, "random", what="random"))
+    jp.go("race", lambda: judge(run, t_race, "free-running readers vs a large write", what="race"))
     outp = jp.join()
     n_s, so_s = outp["sched"]
     reproduced = [sc for sc in so_s if sc[0].get("sid", 10 ** 9) < len(cex_scheds)]
@@ -327,6 +344,8 @@ def check(run):
     if so_q:
         raise vlib.ToolError("strict and relaxed judge disagree on a sequential scenario: %s" % json.dumps(so_q[0])[:1500])
     n_x, so_x = outp["rand"]
+    n_g, so_g = outp["race"]
+    run.cov["free_running_reader_scenarios"] = 2 * nrace
     run.cov["rejected_scenarios_by_key"] = dict(PER_KEY)
     run.cov["strict_only_rejections"] = {"schedules": len(so_s), "random": len(so_x)}
     # fidelity of the key rule (explorer vs code): drift, not a verdict
